@@ -17,6 +17,12 @@ def reg_kind(name: str) -> str:
         if name == "HEX_REG_ALIAS_PC":
             return "pc"
         return "aliasNew" if name.endswith("_NEW") else "alias"
+    import re as _re
+    m = _re.fullmatch(r"[A-Z]([a-z])\1?([VN])", name)
+    if m:
+        if m.group(2) == "N":
+            return "new"
+        return "src" if m.group(1) in "stuvw" else ("dst" if m.group(1) in "de" else "rw")
     if name in SRC:
         return "src"
     if name in DST:
@@ -142,6 +148,8 @@ def parse_sem(line: str) -> dict:
         v = [x.s if isinstance(x, Q) else x for x in item[1:]]
         if k in ("parsed", "tree-equal"):
             d[k] = v[0] == "1"
+        elif k in ("certified", "pure-equal"):
+            d[k] = v[0]
         elif k in ("ran", "skipped"):
             d[k] = int(v[0])
         elif k == "fail":
